@@ -54,13 +54,6 @@ inductive Op
   | removeBadValue
 deriving Repr
 
-/-- does the entry point start with the `search_safe` guard?  As the code is now, every one does except
-`CiscoConfParse.re_match_iter_typed`, which walks `config_objs` without looking at the checkpoints (known finding
-FC07a: the property demands the guard there as well). -/
-def guarded : Search → Bool
-  | .ccpReMatchIterTyped => false
-  | _ => true
-
 def liftRes (r : S × Except Edit.Err Unit) : S × Except Err Unit :=
   (r.1, match r.2 with | .ok u => .ok u | .error e => .error (.base e))
 
@@ -73,7 +66,10 @@ def step (s : S) : Op → S × Except Err Unit
       match posOf s.items h with
       | none => (s, .error (.base .doesNotExist))
       | some _ => liftRes (Edit.step s (.delete h))
-  | .search k => if guarded k then liftRes (Edit.step s .probe) else (s, .ok ())
+  -- every entry point starts with the same `search_safe` guard.  (Before the repair `fix:
+  -- CiscoConfParse.re_match_iter_typed() refuses to search an uncommitted config` that method had none and
+  -- answered in every state: finding FC07a.)
+  | .search _ => liftRes (Edit.step s .probe)
   | .listInsObj after emptyRx row txt =>
     if emptyRx then (s, .error (.base .valueError))
     else (autoCommit { s with items := insertAtMatches after (fresh txt) s.items row, dirty := true }, .ok ())
